@@ -482,6 +482,7 @@ pub fn execute(case: &Value, _scratch: &str) -> Outcome {
                         out.violate(Verdict::new("C11", "C11:content-differs", &[("what", "sheet-count"), ("raw_sheets", rawf)], format!("step {}: reloaded file has {} sheets, expected {}", k, l2.get_sheet_count(), track.len())));
                         return;
                     }
+                    let clash = image_name_clash(&twin);
                     for (i, t) in track.iter().enumerate() {
                         let got = world::dump_sheet_deep(&l2.get_sheet_collection_no_check()[i]);
                         let state = if !t.materialised { "raw" } else if t.edited { "edited" } else { "materialised" };
@@ -500,13 +501,16 @@ pub fn execute(case: &Value, _scratch: &str) -> Outcome {
                                 if got2 != want {
                                     let mut d = Vec::new();
                                     world::diff_keys(&got2, &want, "", &mut d);
+                                    let cause = if clash && d.iter().all(|k| k.starts_with("/deep/images")) { "image-name-clash" } else { "" };
                                     out.violate(Verdict::new(
                                         "C11",
                                         "C11:content-differs",
-                                        &[("what", "sheet"), ("sheet_state", state), ("structural_edit_while_raw", structf)],
+                                        &[("what", "sheet"), ("sheet_state", state), ("structural_edit_while_raw", structf), ("cause", cause)],
                                         format!("step {}: unaccessed sheet {} differs from the original after save+reload: {}", k, i, d.iter().take(3).cloned().collect::<Vec<_>>().join("; ")),
                                     ));
+                                    if cause.is_empty() {
                                     break;
+                                }
                                 }
                             }
                         } else {
@@ -514,13 +518,16 @@ pub fn execute(case: &Value, _scratch: &str) -> Outcome {
                             if got != want {
                                 let mut d = Vec::new();
                                 world::diff_keys(&got, &want, "", &mut d);
+                                let cause = if clash && d.iter().all(|k| k.starts_with("/deep/images")) { "image-name-clash" } else { "" };
                                 out.violate(Verdict::new(
                                     "C11",
                                     "C11:content-differs",
-                                    &[("what", "sheet"), ("sheet_state", state), ("structural_edit_while_raw", structf)],
+                                    &[("what", "sheet"), ("sheet_state", state), ("structural_edit_while_raw", structf), ("cause", cause)],
                                     format!("step {}: {} sheet {} differs from the eager twin after save+reload: {}", k, state, i, d.iter().take(3).cloned().collect::<Vec<_>>().join("; ")),
                                 ));
-                                break;
+                                if cause.is_empty() {
+                                    break;
+                                }
                             }
                         }
                     }
@@ -611,6 +618,26 @@ fn apply_event_eager(b: &mut umya::Spreadsheet, ev: &Ev) {
     for s in b.get_sheet_collection_no_check() {
         let _ = world::dump_sheet_deep(s);
     }
+}
+
+/// Two pictures of the workbook carry the same media name and different bytes. The library stores media parts
+/// under that name and keeps whichever is written first: known finding F1 (see known_findings.json).
+fn image_name_clash(book: &umya::Spreadsheet) -> bool {
+    let mut seen: std::collections::BTreeMap<String, String> = std::collections::BTreeMap::new();
+    for ws in book.get_sheet_collection_no_check() {
+        if !umya::verif_hooks::is_deserialized(ws) {
+            continue;
+        }
+        for i in ws.get_image_collection() {
+            let h = world::h_bytes(i.get_image_data());
+            if let Some(prev) = seen.insert(i.get_image_name().to_string(), h.clone()) {
+                if prev != h {
+                    return true;
+                }
+            }
+        }
+    }
+    false
 }
 
 fn op_sheet(op: &Op) -> Option<usize> {
